@@ -202,10 +202,12 @@ def _mk():
         if isinstance(v, int):
             return short == "int"
         if isinstance(v, sp.Basic):
-            if v.is_integer:
-                return short == "int"
-            if short in ("int", "float"):
-                return short == "float" if v.is_integer is False or v.is_number else (None if short == "int" else None)
+            if short == "int":
+                return True if v.is_integer else (False if v.is_integer is False else None)
+            if short == "float":
+                return False if v.is_integer else (True if v.is_integer is False else None)
+            if short in ("Number", "Real"):
+                return True
             return False
         if isinstance(v, str):
             return short == "str"
@@ -237,6 +239,10 @@ def _mk():
                 return True
             if r is None:
                 unknown = True
+        if unknown and isinstance(v, sp.Expr):
+            shorts = {getattr(cl, "name", "").split(".")[-1] for cl in classes}
+            if {"int", "float"} <= shorts:
+                return True  # a python number is an int or a float
         if unknown:
             return T("isinstance", (A._term(v), A._term(c)))
         return False
